@@ -150,30 +150,36 @@ func (fs *FS) MountPoints() []Point {
 
 // Rename implements hackpadfs.RenameFS
 func (fs *FS) Rename(oldname, newname string) error {
+	err := fs.rename(oldname, newname)
+	switch e := err.(type) {
+	case nil:
+		return nil
+	case *hackpadfs.LinkError:
+		err = e.Err
+	case *hackpadfs.PathError:
+		err = e.Err
+	}
+	// always report the caller's paths, not the paths inside the mounted file systems
+	return &hackpadfs.LinkError{Op: "rename", Old: oldname, New: newname, Err: err}
+}
+
+func (fs *FS) rename(oldname, newname string) error {
+	if !hackpadfs.ValidPath(oldname) || !hackpadfs.ValidPath(newname) {
+		return hackpadfs.ErrInvalid
+	}
 	oldMount, oldPoint, oldSubPath := fs.mountPoint(oldname)
 	newMount, newPoint, newSubPath := fs.mountPoint(newname)
-	oldInfo, err := hackpadfs.Stat(oldMount, oldSubPath)
-	if err != nil {
-		return &hackpadfs.LinkError{Op: "rename", Old: oldname, New: newname, Err: err}
-	}
-	if oldname == newname {
-		if !oldInfo.IsDir() {
-			return nil
-		}
-		return &hackpadfs.LinkError{Op: "rename", Old: oldname, New: newname, Err: hackpadfs.ErrExist}
+	if oldPoint == newPoint {
+		return hackpadfs.Rename(oldMount, oldSubPath, newSubPath)
 	}
 
-	if oldPoint == newPoint {
-		err := hackpadfs.Rename(oldMount, oldSubPath, newSubPath)
-		if linkErr, ok := err.(*hackpadfs.LinkError); ok {
-			// report the caller's paths, not the paths inside the mounted FS
-			err = &hackpadfs.LinkError{Op: linkErr.Op, Old: oldname, New: newname, Err: linkErr.Err}
-		}
+	oldInfo, err := hackpadfs.Stat(oldMount, oldSubPath)
+	if err != nil {
 		return err
 	}
 	if oldInfo.IsDir() {
 		// TODO support renaming directories
-		return &hackpadfs.LinkError{Op: "rename", Old: oldname, New: newname, Err: hackpadfs.ErrNotImplemented}
+		return hackpadfs.ErrNotImplemented
 	}
 
 	oldFile, err := oldMount.Open(oldSubPath)
@@ -187,7 +193,7 @@ func (fs *FS) Rename(oldname, newname string) error {
 	}
 	newFileWriter, ok := newFile.(io.Writer)
 	if !ok {
-		return &hackpadfs.LinkError{Op: "rename", Old: oldname, New: newname, Err: hackpadfs.ErrPermission}
+		return hackpadfs.ErrPermission
 	}
 	defer func() { _ = newFile.Close() }()
 	_, err = io.Copy(newFileWriter, oldFile)
